@@ -53,7 +53,11 @@ func main() {
 		os.Exit(2)
 	}
 	defer cleanupScratch()
-	go watchdog(envInt("IKEVERIF_MAXHEAP_MB", 12000), envInt("IKEVERIF_MAXSEC", 900))
+	maxSec := 900
+	if args[0] == "check" {
+		maxSec = 3000 // the lemma processes have their own (smaller) budgets
+	}
+	go watchdog(envInt("IKEVERIF_MAXHEAP_MB", 12000), envInt("IKEVERIF_MAXSEC", maxSec))
 	if pf := os.Getenv("IKEVERIF_PROF"); pf != "" {
 		f, _ := os.Create(pf)
 		pprof.StartCPUProfile(f)
